@@ -72,3 +72,13 @@ CONTRACTS[M + "count_strings"] = dict(
     ensures=[("number-of-strings", "result == len(self.tuning)")],
     split=[{"field_types": {"self.tuning": sh}} for sh in SHAPES], split_is_domain=True,
     properties=["C20"], battery="tuning_only")
+
+CONTRACTS["mingus.extra.tunings.fingers_needed"] = dict(
+    params={"fingering": "list[any]"},
+    requires=[("frets-0-to-24-at-least-one-pressed",
+               "all([0 <= x and x <= 24 for x in fingering]) and any([x != 0 for x in fingering])")],
+    returns="int", modifies=[],
+    ensures=[("one-finger-per-pressed-string-barre-counted-once", "result == fingers_spec(fingering)")],
+    split=[{"param_types": {"fingering": "[" + ",".join(["int"] * k) + "]"}} for k in range(1, 6)],
+    split_is_domain=True, properties=["C20"], battery="fingerings",
+    notes="domain: fingerings of 1..5 strings with arbitrary frets 0..24 (at least one pressed)")
